@@ -7,7 +7,7 @@ From LV Require Import Reactive.Graph Reactive.GraphLemmas Reactive.GraphInvaria
                        Reactive.GraphMarkProofs Reactive.GraphMarkOrigin Reactive.GraphQueueProofs
                        Reactive.GraphPullBase Reactive.GraphPullSteps
                        Reactive.GraphPullDefs Reactive.GraphPullEval Reactive.GraphPullRead
-                       Reactive.GraphPullMemo Reactive.GraphPullProofs.
+                       Reactive.GraphPullMemo Reactive.GraphPullProofs Reactive.GraphMarkCone.
 Import ListNotations.
 Close Scope Z_scope.
 Open Scope nat_scope.
@@ -90,11 +90,31 @@ Proof.
 Qed.
 
 (* ---------------------------------------------------------------- a signal is written / notifies *)
-Lemma Inv_notify j v s :
-  Inv0 s -> sigb j = true ->
-  Inv0 (notify_sig p j (updn j (fun n => set_sval n v) s)).
+(* effect-level fields and the halt flag, which no read, write or marking touches *)
+Definition EffRel (s s' : state) : Prop :=
+  (forall i, efirst (getn s' i) = efirst (getn s i) /\ epaused (getn s' i) = epaused (getn s i) /\
+             ealive (getn s' i) = ealive (getn s i) /\ edone (getn s' i) = edone (getn s i) /\
+             emissed (getn s' i) = emissed (getn s i) /\ epoll (getn s' i) = epoll (getn s i)) /\
+  halted s' = halted s.
+
+(* a write (or bare notify) while the bodies in [stk] are running, none of which depends on the
+   written signal: everything at rest is marked as by a write from outside, the running bodies
+   and all they have read so far are left exactly as they were *)
+Lemma Inv_write stk t j v s :
+  Inv stk t s -> sigb j = true ->
+  (forall k, In k stk -> k <> j /\ ~ dep p k j /\ L1 s k) ->
+  let s' := notify_sig p j (updn j (fun n => set_sval n v) s) in
+  Inv stk t s' /\ (forall k, In k stk -> getn s' k = getn s k) /\ EffRel s s'.
 Proof.
-  intros I Hsj. unfold notify_sig.
+  intros I Hsj Hstk. cbv zeta.
+  assert (Htr : forall k, In j (tracked_of (rlog (getn s k))) -> dep p k j).
+  { intros k Hk. destruct (in_dec Nat.eq_dec k stk) as [Hin|Hin].
+    - destruct (Hstk k Hin) as (_&_&HL). eapply wf_dep; [apply I|]. rewrite HL. exact Hk.
+    - destruct (inv_rest _ _ _ _ I k Hin) as (HL&_). eapply wf_dep; [apply I|]. rewrite HL. exact Hk. }
+  assert (Hun : forall x, x <> j -> ~ dep p x j ->
+                getn (notify_sig p j (updn j (fun n => set_sval n v) s)) x = getn s x).
+  { intros x Hx1 Hx2. apply (write_sig_untouched p j v s x); auto. apply I. }
+  unfold notify_sig in *.
   assert (W : WF s) by apply I.
   assert (Hdj : exists tk iv, decl_of p j = DSig tk iv).
   { unfold GraphInvariant.sigb in Hsj. destruct (decl_of p j); try discriminate. eauto. }
@@ -152,12 +172,22 @@ Proof.
     destruct (Hcore x) as (->&_). destruct (H2 x) as (->&_). rewrite H1s; auto. }
   assert (Frl : forall k, rlog (getn s' k) = rlog (getn s k)) by (intros k; apply F).
   assert (Hsubs2 : subs (getn s2 j) = subs (getn s j)) by apply V2.
+  assert (Hunk : forall k, In k stk -> getn s' k = getn s k).
+  { intros k Hk. destruct (Hstk k Hk) as (Hk1&Hk2&_). apply Hun; auto. }
+  split; [|split; [exact Hunk|]].
+  2:{ split.
+      - intros i. destruct (Hcore i) as (_&_&_&_&_&_&E1&E2&E3&E4&E5&E6).
+        destruct (V2 i) as (_&_&_&_&_&Hq). unfold qview_eq in Hq. destruct Hq as (_&_&_&G1&G3&G4&G5&G6).
+        destruct (H2 i) as (_&_&_&_&_&_&_&_&_&_&G2&_).
+        assert (G2' : epaused (getn s1 i) = epaused (getn s i)) by (unfold s1; apply (updn_field epaused); auto).
+        repeat split; congruence.
+      - rewrite (mr_halted p _ _ MR). destruct H2m as (_&_&_&->&_). reflexivity. }
   split.
   - eapply MarkRel_WF; eauto.
   - rewrite (mr_err p _ _ MR). destruct H2m as (_&->&_). apply I.
   - rewrite (mr_nocause p _ _ MR). destruct H2m as (_&_&_&_&_&->). apply I.
-  - intros k _.
-    destruct (inv_rest _ _ _ _ I k (fun x => x)) as (R1 & R2 & R3 & R4 & R5).
+  - intros k Hk.
+    destruct (inv_rest _ _ _ _ I k Hk) as (R1 & R2 & R3 & R4 & R5).
     destruct (F k) as (Fca & Frk & Fsk & Fsu & Fle & Fal & Ffi & Fmi & Fpo & Fbd & Fbf & Fsi).
     split; [unfold L1; rewrite Fsk, Frk; exact R1|].
     split.
@@ -192,8 +222,30 @@ Proof.
         { apply tracks_iff. rewrite <- R1. eapply wf_sub_src; eauto. rewrite <- Hsubs2. exact Hin. }
         rewrite Ht. discriminate.
   - exact QF.
-  - intros k [].
+  - intros k Hk. destruct (Hstk k Hk) as (Hkj & Hkd & HL).
+    destruct (inv_frame _ _ _ _ I k Hk) as (F1&F2&F3&F4&F5&F6&F7).
+    assert (Ek : getn s' k = getn s k) by (apply Hunk; auto).
+    assert (Hsame : forall x w, In (x, w, true) (rlog (getn s k)) -> getn s' x = getn s x).
+    { intros x w Hx.
+      assert (Hdx : dep p k x).
+      { eapply wf_dep; [apply I|]. rewrite HL. apply in_tracked_of. eauto. }
+      apply Hun.
+      - intros ->. auto.
+      - intros Hd. apply Hkd. eapply dep_trans; eauto. }
+    split.
+    { intros x w Hx. rewrite Ek in Hx. unfold GraphInvariant.cur. rewrite (Hsame x w Hx). apply (F1 x w Hx). }
+    split.
+    { intros x w Hx Hm. rewrite Ek in Hx. rewrite (Hsame x w Hx). apply (F2 x w Hx Hm). }
+    rewrite Ek. auto 10.
 Qed.
+
+Lemma Inv_notify j v s :
+  Inv0 s -> sigb j = true ->
+  Inv0 (notify_sig p j (updn j (fun n => set_sval n v) s)).
+Proof.
+  intros I Hsj. apply (Inv_write [] 0 j v s I Hsj). intros k [].
+Qed.
+
 
 (* ---------------------------------------------------------------- a read from outside *)
 Lemma ctx_ok_top : ctx_ok [] top_ctx.
@@ -209,7 +261,8 @@ Proof.
   intros I Hn He Hr. unfold read_top, read_any in Hr.
   destruct (snd (lvl p (N p)) true top_ctx n s) as [s1 x] eqn:E. inversion Hr; subst s' v. clear Hr.
   destruct (lvl_spec p wfp (N p)) as [_ HR].
-  destruct (HR true top_ctx n s [] (N p) s1 x Hn Hn He (Inv_nil 0 (N p) s I) ctx_ok_top Logic.I E)
+  assert (Hcd : CtxDep p top_ctx n) by (intros w Hw; discriminate).
+  destruct (HR true top_ctx n s [] (N p) s1 x Hn Hn He Hcd (Inv_nil 0 (N p) s I) ctx_ok_top Logic.I E)
     as (I1 & _ & P1 & Hm & Hs & _).
   split; [apply Inv_emit; eapply Inv_nil; eauto|].
   split; [eapply PullRel_trans; [exact P1|apply PullRel_emit]|].
@@ -270,14 +323,15 @@ Qed.
    a Clean memo with a consistent cone, or is the signal's current value: no glitch *)
 Theorem read_in_run_consistent m c j s stk t s' v :
   Inv stk t s -> ctx_ok stk c -> TopOK c s -> j < t -> j < length p -> effb j = false ->
+  CtxDep p c j ->
   read_any p m c j s = (s', v) ->
   Inv stk t s' /\
   (memob j = true -> cache (getn s' j) = Some v /\ ConsistentM s' j) /\
   (sigb j = true -> v = sval (getn s' j)).
 Proof.
-  intros I C T Hjt Hjl He Hr. unfold read_any in Hr.
+  intros I C T Hjt Hjl He Hcd Hr. unfold read_any in Hr.
   destruct (lvl_spec p wfp (N p)) as [_ HR].
-  destruct (HR m c j s stk t s' v Hjl Hjt He I C T Hr) as (I' & _ & _ & Hm & Hs & _).
+  destruct (HR m c j s stk t s' v Hjl Hjt He Hcd I C T Hr) as (I' & _ & _ & Hm & Hs & _).
   split; auto. split; auto.
   intros Hmj. destruct (Hm Hmj) as [Hc Hca]. split; auto.
   apply (clean_consistent_stk stk t s' I' j Hjt Hmj Hc).
